@@ -146,7 +146,11 @@ func (d *Doc) Menu(f Field) []uint64 {
 	case "len16":
 		m = []uint64{0, 1, 2, 3, 7, 8, 9, cur - 1, cur + 1, cur + 2, 0x7fff, 0x8000, 0xfffd, 0xfffe, 0xffff}
 	case "len32", "size32":
-		m = []uint64{0, 1, 2, 7, 8, 9, 15, 16, 17, cur - 1, cur + 1, cur + 8, total, total + 1, 0xffff, 0x10000, 0xa00000, 0x7ffffffe, 0x7fffffff, 0x80000000, 0xfffffff0, 0xfffffffe, 0xffffffff}
+		m = []uint64{0, 1, 2, 7, 8, 9, 15, 16, 17, cur - 1, cur + 1, cur + 8, total, total + 1, 0xffff, 0x10000, 0xa00000, 0x7ffffffe, 0x7fffffff, 0x80000000, 0x80000008}
+		for v := uint64(0xffffffe0); v <= 0xffffffff; v++ { // small negative numbers when read as signed: -32..-1
+			m = append(m, v)
+		}
+		m = append(m, (1<<32)-cur, (1<<32)-cur-8, (1<<32)-cur-12)
 	case "size64":
 		m = []uint64{0, 1, 8, 15, 16, 17, cur - 1, cur + 1, total + 1, 1<<31 - 1, 1 << 31, 1<<32 - 1, 1 << 32, 1<<63 - 1, 1 << 63, 1<<64 - 1}
 	case "off32":
